@@ -4,6 +4,7 @@
 -/
 import Krp.Lemmas.HubSpec
 import Krp.Lemmas.Arith
+import Krp.Lemmas.Reach
 namespace Krp
 open HubSt
 
@@ -78,5 +79,29 @@ theorem C06_release_group_pro_rata (U Tot sl : Nat) (hT : 0 < Tot) (hsl : sl ≤
 
 /-! Non-vacuity: 1000 bSei + 500 stSei booked, 10 % slashed. -/
 example : mulDec 1350 (fromRatio 1000 1500) = 899 ∧ 1350 - 899 = 451 := by decide
+
+
+/-- **CheckSlashing as a whole transaction, after a slash, in the composed system.** Sent by anyone
+    to an unpaused hub whose books exceed what is still delegated (validators were slashed since
+    the last check): the transaction succeeds, emits nothing, and afterwards the booked stake is
+    exactly the surviving delegated amount, split between the two pools pro rata within two base
+    units; nothing but the hub's pools and stored rates changed. -/
+theorem C06_check_slashing_tx (s : Sys) (u : Addr) (st : HubSt) (hp : s.hub.isPaused = false)
+    (hact : s.hub.actualState s.hubEnv = .ok st)
+    (hd : s.delegationsOf hubA ≠ [])
+    (hlt : ((s.delegationsOf hubA).map (·.2)).sum < s.hub.bBond + s.hub.sBond)
+    (hE1 : ((s.delegationsOf hubA).map (·.2)).sum ≤ D) :
+    s.exec (.wasm u hubA (.hub .checkSlashing) []) = ({ s with hub := st }, .ok ()) ∧
+    st.bBond + st.sBond = ((s.delegationsOf hubA).map (·.2)).sum ∧
+    st.bBond * (s.hub.bBond + s.hub.sBond) ≤ ((s.delegationsOf hubA).map (·.2)).sum * s.hub.bBond ∧
+    ((s.delegationsOf hubA).map (·.2)).sum * s.hub.bBond < (st.bBond + 2) * (s.hub.bBond + s.hub.sBond) := by
+  have r := C06_recognised_exactly s.hub st s.hubEnv hact hd hlt hE1
+  refine ⟨?_, r.1, r.2.1, r.2.2.1⟩
+  have H : s.handle (.wasm u hubA (.hub .checkSlashing) []) = .ok ({ s with hub := st }, []) := by
+    simp only [Sys.handle, Sys.moveFunds, bind, Except.bind, pure, Except.pure]
+    rw [if_pos trivial]
+    simp only [hubExec, hp, Bool.false_eq_true, if_false, bind, Except.bind, pure, Except.pure, hact]
+  unfold Sys.exec
+  simp only [Sys.run, H, List.nil_append]
 
 end Krp
